@@ -209,6 +209,30 @@ func metaProbe() (string, error) {
 	return string(b), nil
 }
 
+// metaProbeExpand: the same fragment, and a fragment of the Swagger 2.0 meta-schema, through ExpandSchema without a cache
+func metaProbeExpand() (string, error) {
+	var out []string
+	for _, u := range []string{"http://json-schema.org/draft-04/schema#/definitions/positiveIntegerDefault0", "http://swagger.io/v2/schema.json#/definitions/license"} {
+		sch := new(spec.Schema)
+		_ = json.Unmarshal([]byte(`{"type":"object","properties":{"m":{"$ref":"`+u+`"}}}`), sch)
+		if err := spec.ExpandSchema(sch, nil, nil); err != nil {
+			return "", err
+		}
+		b, _ := json.Marshal(sch)
+		out = append(out, string(b))
+	}
+	return strings.Join(out, " "), nil
+}
+
+// metaFresh: what the loaders of the two meta-schemas hand out
+func metaFresh() string {
+	a, _ := spec.JSONSchemaDraft04()
+	b, _ := spec.Swagger20Schema()
+	ja, _ := json.Marshal(a)
+	jb, _ := json.Marshal(b)
+	return string(ja) + " " + string(jb)
+}
+
 func metaWhole(url string) (*spec.Schema, error) {
 	ref := spec.MustCreateRef(url)
 	loader := func(u string) (json.RawMessage, error) { return nil, fmt.Errorf("no network: %s", u) }
@@ -261,6 +285,17 @@ func checkMeta(in metaInput) (msg string) {
 	if err != nil {
 		return "a fragment of the built-in draft-04 meta-schema does not resolve: " + err.Error()
 	}
+	beforeX, err := metaProbeExpand()
+	if err != nil {
+		return "a fragment of a built-in meta-schema does not expand: " + err.Error()
+	}
+	fresh0 := metaFresh()
+	// a caller loads its own copy of each meta-schema and expands it in place (as a validator does)
+	for _, load := range []func() (*spec.Schema, error){spec.JSONSchemaDraft04, spec.Swagger20Schema} {
+		if own, err := load(); err == nil {
+			_ = spec.ExpandSchema(own, nil, nil)
+		}
+	}
 	urls := []string{"http://json-schema.org/draft-04/schema#", "http://swagger.io/v2/schema.json#"}
 	if in.Workers <= 1 {
 		for _, u := range urls {
@@ -284,6 +319,16 @@ func checkMeta(in metaInput) (msg string) {
 	}
 	if after != before {
 		return "an earlier call changed what a later, unrelated resolution returns: " + before + " became " + after
+	}
+	afterX, err := metaProbeExpand()
+	if err != nil {
+		return "after other calls a fragment of a built-in meta-schema no longer expands (ExpandSchema without a cache): " + err.Error()
+	}
+	if afterX != beforeX {
+		return "an earlier call changed what a later, unrelated ExpandSchema without a cache returns: " + exClip(beforeX, 300) + " became " + exClip(afterX, 300)
+	}
+	if metaFresh() != fresh0 {
+		return "a meta-schema loaded after another loaded copy was expanded is not the embedded one (the loaders hand out shared storage)"
 	}
 	return metaPristine()
 }
@@ -623,4 +668,200 @@ func init() {
 	}
 	replays["C17typed"] = rp("C17")
 	replays["C10typed"] = rp("C10")
+}
+
+// ---------------------------------------------------------------------------------------------
+// C03: cycles made of parameter / response / path-item references only (the generated graphs keep such chains well-founded,
+// because an element that is nothing but a reference to itself denotes nothing).  Whatever the expander does with them, a
+// `$ref` it leaves at such a position must still resolve from the root location to a node on the cycle - in particular when
+// the reference that closes the cycle is written in another document, in another folder.
+
+type elemCycleInput struct {
+	Shape string `json:"shape"`
+	Abs   bool   `json:"abs"`
+}
+
+var elemCycleShapes = []string{"pathitem-self-other", "pathitem-2cycle-other", "pathitem-self-root", "param-2cycle-other", "response-self-other", "pathitem-back-to-root"}
+
+func elemCycleGraph(shape string) *exGraph {
+	root, other := "file:///r/api/root.json", "file:///r/shared/items.json"
+	ref := func(s string) map[string]interface{} { return map[string]interface{}{"$ref": s} }
+	hdr := func(m map[string]interface{}) map[string]interface{} {
+		m["swagger"], m["info"] = "2.0", map[string]interface{}{"title": "t", "version": "1"}
+		if m["paths"] == nil {
+			m["paths"] = map[string]interface{}{}
+		}
+		return m
+	}
+	tree := map[string]interface{}{"type": "object", "properties": map[string]interface{}{"next": ref("#/definitions/tree")}}
+	okResp := map[string]interface{}{"200": map[string]interface{}{"description": "ok", "schema": ref("#/definitions/tree")}}
+	r := hdr(map[string]interface{}{"definitions": map[string]interface{}{"tree": tree}})
+	o := hdr(map[string]interface{}{})
+	paths := map[string]interface{}{"/tree": map[string]interface{}{"get": map[string]interface{}{"responses": okResp}}}
+	r["paths"] = paths
+	switch shape {
+	case "pathitem-self-other":
+		paths["/a"] = ref("../shared/items.json#/x")
+		o["x"] = ref("#/x")
+	case "pathitem-2cycle-other":
+		paths["/a"] = ref("../shared/items.json#/x")
+		o["x"], o["y"] = ref("#/y"), ref("#/x")
+	case "pathitem-self-root":
+		paths["/a"] = ref("#/paths/~1a")
+	case "pathitem-back-to-root":
+		paths["/a"] = ref("../shared/items.json#/x")
+		o["x"] = ref("../api/root.json#/paths/~1a")
+	case "param-2cycle-other":
+		o["parameters"] = map[string]interface{}{"p": ref("#/parameters/q"), "q": ref("#/parameters/p")}
+		paths["/a"] = map[string]interface{}{"get": map[string]interface{}{"parameters": []interface{}{ref("../shared/items.json#/parameters/p")}, "responses": okResp}}
+	case "response-self-other":
+		o["responses"] = map[string]interface{}{"r": ref("#/responses/r")}
+		paths["/a"] = map[string]interface{}{"get": map[string]interface{}{"responses": map[string]interface{}{"default": ref("../shared/items.json#/responses/r")}}}
+	}
+	return exFromGeneric(map[string]interface{}{root: r, other: o}, root)
+}
+
+func checkElemCycle(in elemCycleInput) []exFinding {
+	x := exInputOf(elemCycleGraph(in.Shape))
+	x.Opts = &exOpts{Abs: in.Abs}
+	return checkC03(x)
+}
+
+func oracleC03Cyc(r *rng, n int, tier string) *oracleResult {
+	exQuiet()
+	res := &oracleResult{Stats: map[string]int{}}
+	for _, sh := range elemCycleShapes {
+		for _, abs := range []bool{false, true} {
+			in := elemCycleInput{Shape: sh, Abs: abs}
+			res.Evaluations++
+			res.Distinct++
+			for _, f := range checkElemCycle(in) {
+				if strings.HasPrefix(f.Shape, "stat:") {
+					continue
+				}
+				res.Stats["fail:"+f.Shape]++
+				res.Failures = append(res.Failures, failure{Property: "C03", What: "cycle of element references (" + sh + "): " + f.What, Shape: "element-cycle:" + f.Shape, Input: in, Observed: f.Obs, Expected: f.Exp})
+			}
+		}
+	}
+	res.Samples = []interface{}{elemCycleInput{Shape: "pathitem-self-other"}}
+	return dedupFailures(res)
+}
+
+func init() {
+	oracles["C03cyc"] = oracleC03Cyc
+	replays["C03cyc"] = func(input json.RawMessage) *oracleResult {
+		var in elemCycleInput
+		res := &oracleResult{Stats: map[string]int{}, Evaluations: 1}
+		if json.Unmarshal(input, &in) != nil {
+			return res
+		}
+		for _, f := range checkElemCycle(in) {
+			if !strings.HasPrefix(f.Shape, "stat:") {
+				res.Failures = append(res.Failures, failure{Property: "C03", What: f.What, Shape: "element-cycle:" + f.Shape, Input: in, Observed: f.Obs, Expected: f.Exp})
+			}
+		}
+		return res
+	}
+}
+
+// ---------------------------------------------------------------------------------------------
+// C04: cycles through references that end at a member the TYPED document holds behind a pointer (the `not` of a schema, the
+// schema of a parameter or of a response, a single-schema `items`, a schema-valued `additionalProperties`), the designated
+// object being reached again later in the same expansion (from `paths`) and by a second expansion of the same root:
+// whatever the resolver hands out must not let the expander tie the document into a cyclic Go structure
+
+type ptrCycleInput struct {
+	Shape string `json:"shape"`
+}
+
+var ptrCycleShapes = []string{"not", "param-schema", "response-schema", "items", "additionalProperties"}
+
+func ptrCycleDoc(shape string) map[string]interface{} {
+	ref := func(s string) map[string]interface{} { return map[string]interface{}{"$ref": s} }
+	obj := func(target string) map[string]interface{} {
+		return map[string]interface{}{"type": "object", "properties": map[string]interface{}{"again": ref(target), "leaf": map[string]interface{}{"type": "string"}}}
+	}
+	doc := map[string]interface{}{"swagger": "2.0", "info": map[string]interface{}{"title": "t", "version": "1"}}
+	defs := map[string]interface{}{}
+	doc["definitions"] = defs
+	var target string
+	switch shape {
+	case "not":
+		target = "#/definitions/a/not"
+		defs["a"] = map[string]interface{}{"type": "object", "not": obj(target)}
+	case "items":
+		target = "#/definitions/a/items"
+		defs["a"] = map[string]interface{}{"type": "array", "items": obj(target)}
+	case "additionalProperties":
+		target = "#/definitions/a/additionalProperties"
+		defs["a"] = map[string]interface{}{"type": "object", "additionalProperties": obj(target)}
+	case "param-schema":
+		target = "#/parameters/p/schema"
+		doc["parameters"] = map[string]interface{}{"p": map[string]interface{}{"name": "b", "in": "body", "schema": obj(target)}}
+	case "response-schema":
+		target = "#/responses/r/schema"
+		doc["responses"] = map[string]interface{}{"r": map[string]interface{}{"description": "r", "schema": obj(target)}}
+	}
+	// reached again, after the shared sections, from the paths
+	doc["paths"] = map[string]interface{}{"/again": map[string]interface{}{"get": map[string]interface{}{
+		"parameters": []interface{}{map[string]interface{}{"name": "q", "in": "body", "schema": ref(target)}},
+		"responses":  map[string]interface{}{"200": map[string]interface{}{"description": "ok", "schema": map[string]interface{}{"type": "array", "items": ref(target)}}}}}}
+	return doc
+}
+
+func checkPtrCycle(in ptrCycleInput) string {
+	root := "file:///r/root.json"
+	g := exFromGeneric(map[string]interface{}{root: ptrCycleDoc(in.Shape)}, root)
+	for _, o := range []exOpts{{}, {Cont: true}, {Abs: true}} {
+		c := g.call("expand_spec", o)
+		c.Twice = true
+		res := exWorkerRun(c)
+		if res.Timeout {
+			return fmt.Sprintf("ExpandSpec (%+v, twice on the same typed root) does not return on a cycle through a reference ending at %s", o, in.Shape)
+		}
+		if res.Panic != "" {
+			return fmt.Sprintf("ExpandSpec (%+v, twice on the same typed root) crashes on a cycle through a reference ending at %s: %.200s", o, in.Shape, res.Panic)
+		}
+	}
+	return ""
+}
+
+func oracleC04Ptr(r *rng, n int, tier string) *oracleResult {
+	exQuiet()
+	res := &oracleResult{Stats: map[string]int{}}
+	fails := 0
+	for _, sh := range ptrCycleShapes {
+		if fails >= 2 {
+			res.Stats["not-examined-after-two-failures"]++
+			continue
+		}
+		in := ptrCycleInput{Shape: sh}
+		res.Evaluations++
+		res.Distinct++
+		if msg := checkPtrCycle(in); msg != "" {
+			fails++
+			res.Stats["fail:pointer-member-cycle"]++
+			if fails <= 1 {
+				res.Failures = append(res.Failures, failure{Property: "C04", What: msg, Shape: "pointer-member-cycle", Input: in})
+			}
+		}
+	}
+	res.Samples = []interface{}{ptrCycleInput{Shape: "not"}}
+	return res
+}
+
+func init() {
+	oracles["C04ptr"] = oracleC04Ptr
+	replays["C04ptr"] = func(input json.RawMessage) *oracleResult {
+		var in ptrCycleInput
+		res := &oracleResult{Stats: map[string]int{}, Evaluations: 1}
+		if json.Unmarshal(input, &in) != nil {
+			return res
+		}
+		if msg := checkPtrCycle(in); msg != "" {
+			res.Failures = append(res.Failures, failure{Property: "C04", What: msg, Shape: "pointer-member-cycle", Input: in})
+		}
+		return res
+	}
 }
